@@ -946,12 +946,28 @@ class FaultMeta(type):
             FaultMeta.trigger = None
             if tr[2] == "after":
                 super().__setattr__(name, value)
-            raise RuntimeError("c13: injected setattr fault")
+            raise (tr[3] if len(tr) > 3 else RuntimeError)("c13: injected setattr fault")
         super().__setattr__(name, value)
 
 
 class _BodyError(Exception):
     pass
+
+
+class _BaseErr(BaseException):
+    """a BaseException that is not an Exception (like pytest's Skipped / Failed)"""
+
+
+# exit kinds injected at every fault point: an Exception and BaseExceptions that are not Exceptions
+EXIT_KINDS = [_BodyError, RuntimeError, KeyboardInterrupt, SystemExit, GeneratorExit, _BaseErr]
+
+
+def _pick_kind(rng):
+    return rng.choice(EXIT_KINDS) if rng.random() < 0.7 else _BodyError
+
+
+def _kind_name(k):
+    return "Exception" if issubclass(k, Exception) else f"BaseException:{k.__name__}"
 
 
 ATTRS = ["a0", "a1", "a2"]
@@ -1010,6 +1026,8 @@ def gen_patch_case(rng, ci):
     targets, classes, mro, own = _synth_targets(rng)
     n_frames = rng.randint(1, 3)
     real, model = [], []
+    kinds_used = []
+    body_kind = _pick_kind(rng)
     gidx = 0
     for _fi in range(n_frames):
         fr_r, fr_m = [], []
@@ -1028,8 +1046,11 @@ def gen_patch_case(rng, ci):
                                             (lambda b: (lambda orig: Val(b + (0 if orig is None else orig.id + 1))))(base)))
                 fr_m.append(("monkey", ti, ai, base))
             else:
-                def _raise(orig):
-                    raise RuntimeError("c13: make_value raises")
+                mk_kind = _pick_kind(rng)
+                kinds_used.append(mk_kind)
+
+                def _raise(orig, _k=mk_kind):
+                    raise _k("c13: make_value raises")
                 fr_r.append(MonkeyPatchSpec(targets[ti], ATTRS[ai], _raise))
                 fr_m.append(("raise", ti, ai))
         real.append(fr_r)
@@ -1059,7 +1080,9 @@ def gen_patch_case(rng, ci):
         if cands:
             fi, k, d = rng.choice(cands)
             mode = rng.choice(["before", "after"])
-            FaultMeta.trigger = (targets[d[1]], ATTRS[d[2]], mode)
+            sk = _pick_kind(rng)
+            kinds_used.append(sk)
+            FaultMeta.trigger = (targets[d[1]], ATTRS[d[2]], mode, sk)
             model[fi][1] = ("BeforeSet" if mode == "before" else "AfterSet", k)
             fkind = "setattr-" + mode
     if any(d[0] == "raise" for fr in model for d in fr[0]) and fkind == "none":
@@ -1072,14 +1095,15 @@ def gen_patch_case(rng, ci):
         if i == len(real):
             mid[0] = _observe(targets)
             if body_raises:
-                raise _BodyError()
+                kinds_used.append(body_kind)
+                raise body_kind()
             return
         with apply_patches(real[i]):
             rec(i + 1)
     try:
         rec(0)
         oc = "Returned"
-    except Exception:  # noqa: BLE001
+    except BaseException:  # noqa: BLE001  (KeyboardInterrupt / SystemExit are injected on purpose)
         oc = "Raised"
     FaultMeta.trigger = None
     after = _observe(targets)
@@ -1089,7 +1113,7 @@ def gen_patch_case(rng, ci):
            + ("false" if body_raises else "true") + ", "
            + ("None" if mid[0] is None else f"(Some {_obs_lit(mid[0])})") + ", "
            + _obs_lit(after) + ", " + oc + ")")
-    info = {"fault": fkind, "frames": n_frames, "specs": sum(len(fr[0]) for fr in model),
+    info = {"exit_kinds": sorted({_kind_name(k) for k in kinds_used}) if oc == "Raised" else [], "fault": fkind, "frames": n_frames, "specs": sum(len(fr[0]) for fr in model),
             "dups": sum(len(fr[0]) for fr in model) - len({(d[1], d[2]) for fr in model for d in fr[0]}),
             "perfect": after == before, "lookup_restored": [x[3] for x in after] == [x[3] for x in before],
             "multi_inherit": any(len(c.__bases__) > 1 for c in classes),
